@@ -60,3 +60,51 @@ Theorem C04_source_to_positive :
     gen_to_positive_iseq f l s n = (uf (normnd n (mkU f l s)), ul (normnd n (mkU f l s))).
 Proof. intros. exact (conj (gen_to_positive_fseq_eq f l s n) (gen_to_positive_iseq_eq f l s n)). Qed.
 Print Assumptions C04_source_to_positive.
+
+(** the dynamic 1-D and 2-D view classes, const and non-const copies, as translated on this run
+    (Gen/GeneratedViews.v): constructor normalisation = norm1d / normnd; the scalar read eval_s(idx)
+    returns the parent offset of the model ([view_off]); the vector read eval(idx) gathers into
+    lane j the element of idx + j; eval_s(i,j) addresses parent element (first0 + i*step0,
+    first1 + j*step1); eval(i,j) reads lane k at (first0 + i*step0)*N + first1 + (j+k)*step1
+    whether it takes the contiguous-load or the strided-gather branch *)
+From FastorV Require Import Gen.GeneratedViews Proofs.GenViewsEq.
+Theorem C04_source_view_normalisation :
+  forall f l s f0 l0 s0 f1 l1 s1 M N,
+    gen_view1d_norm_const f l N = (uf (norm1d N (mkU f l s)), ul (norm1d N (mkU f l s))) /\
+    gen_view1d_norm_nonconst f l N = (uf (norm1d N (mkU f l s)), ul (norm1d N (mkU f l s))) /\
+    gen_view2d_norm_const f0 l0 f1 l1 M N = normnd4 f0 l0 s0 f1 l1 s1 M N /\
+    gen_view2d_norm_nonconst f0 l0 f1 l1 M N = normnd4 f0 l0 s0 f1 l1 s1 M N.
+Proof.
+  intros. exact (conj (gen_view1d_norm_const_eq f l s N) (conj (gen_view1d_norm_nonconst_eq f l s N)
+    (conj (gen_view2d_norm_const_eq f0 l0 s0 f1 l1 s1 M N) (gen_view2d_norm_nonconst_eq f0 l0 s0 f1 l1 s1 M N)))).
+Qed.
+Print Assumptions C04_source_view_normalisation.
+
+Theorem C04_source_view_reads :
+  forall M N r0 r1 r p,
+    (p < nsize r0 * nsize r1 ->
+       gen_view2d_evals_const (Z.of_nat (nfirst r0)) (Z.of_nat (nstep r0)) (Z.of_nat (nfirst r1)) (Z.of_nat (nstep r1))
+                              (Z.of_nat (nsize r1)) (Z.of_nat N) (Z.of_nat p) = Z.of_nat (view_off [M; N] [r0; r1] p) /\
+       gen_view2d_evals_nonconst (Z.of_nat (nfirst r0)) (Z.of_nat (nstep r0)) (Z.of_nat (nfirst r1)) (Z.of_nat (nstep r1))
+                              (Z.of_nat (nsize r1)) (Z.of_nat N) (Z.of_nat p) = Z.of_nat (view_off [M; N] [r0; r1] p)) /\
+    (p < nsize r ->
+       gen_view1d_evals_const (Z.of_nat (nfirst r)) (Z.of_nat (nstep r)) (Z.of_nat p) = Z.of_nat (view_off [N] [r] p) /\
+       gen_view1d_evals_nonconst (Z.of_nat (nfirst r)) (Z.of_nat (nstep r)) (Z.of_nat p) = Z.of_nat (view_off [N] [r] p)).
+Proof.
+  intros. split; intros Hp; [exact (gen_view2d_reads_model_offset M N r0 r1 p Hp) | exact (gen_view1d_reads_model_offset N r p Hp)].
+Qed.
+Print Assumptions C04_source_view_reads.
+
+Theorem C04_source_view_vector_reads :
+  forall f0 s0 f1 s1 sz1 N idx i j k,
+    gen_view2d_evallane_const f0 s0 f1 s1 sz1 N idx j = gen_view2d_evals_const f0 s0 f1 s1 sz1 N (idx + j)%Z /\
+    gen_view2d_evallane_nonconst f0 s0 f1 s1 sz1 N idx j = gen_view2d_evals_nonconst f0 s0 f1 s1 sz1 N (idx + j)%Z /\
+    gen_view2d_evals2_const f0 s0 f1 s1 i j = (f0 + i * s0, f1 + j * s1)%Z /\
+    gen_view2d_evals2_nonconst f0 s0 f1 s1 i j = (f0 + i * s0, f1 + j * s1)%Z /\
+    (let '(o, st) := gen_view2d_eval2_const f0 s0 f1 s1 N i j in o + k * st = (f0 + i * s0) * N + (f1 + (j + k) * s1))%Z /\
+    (let '(o, st) := gen_view2d_eval2_nonconst f0 s0 f1 s1 N i j in o + k * st = (f0 + i * s0) * N + (f1 + (j + k) * s1))%Z.
+Proof.
+  intros. exact (conj (gen_view2d_evallane_const_eq f0 s0 f1 s1 sz1 N idx j) (conj (gen_view2d_evallane_nonconst_eq f0 s0 f1 s1 sz1 N idx j)
+    (conj (gen_view2d_evals2_const_eq f0 s0 f1 s1 i j) (conj (gen_view2d_evals2_nonconst_eq f0 s0 f1 s1 i j)
+    (conj (gen_view2d_eval2_const_eq f0 s0 f1 s1 N i j k) (gen_view2d_eval2_nonconst_eq f0 s0 f1 s1 N i j k)))))).
+Qed.
